@@ -431,6 +431,30 @@ theorem ios_F2_idempotent_partial (a0 b : Config) (sc : Scripts) (hw : wfB a0 b 
   rw [lines_reconf, h2, ← h3]
   exact (hA.eqv bi hbi bd hbd).blockEquivA
 
+/-- **`ios_F2_idempotent_exact`** — no hypothesis on the planner's answer.  Under `wfB` the script is
+accepted and leads to `d'`; for EVERY Myers result `sc2` of the second compare that is the identity script
+on every compared pair (`identityOn`, decidable: all cells kept on both sides — what a correct differ
+returns on equal lists, `IdentityDiffer`; it can only be returned when device ACL and target ACL are equal
+line by line, `identityOn_equal`) the device is statically settled and the second compare prints NOTHING.
+This is the class in which the first run converges exactly (no suppressed move:
+`ios_plan_converges_no_suppression_partial`); for ACLs that are only block-equivalent after the first run
+`ios_F2_idempotent_partial` with `plan_second_script_counterexample` stays. -/
+theorem ios_F2_idempotent_exact (a0 b : Config) (sc : Scripts) (hw : wfB a0 b sc = true) (hok : (engine a0 b sc).ok = true) :
+    ∃ d', (exec (ofConfig a0) (engine a0 b sc).script).map strip = some d' ∧
+      ∀ sc2, (∀ p ∈ cmpPairs (alignVRFs (reconf a0 (a0.routes ++ b.routes) d') b {}).2 b,
+          identityOn ((reconf a0 (a0.routes ++ b.routes) d').lines p.1) (b.lines p.2) (lookupD sc2.acl p) = true) →
+        settledB (reconf a0 (a0.routes ++ b.routes) d') b sc2 = true ∧
+        (engine (reconf a0 (a0.routes ++ b.routes) d') b sc2).script = [] := by
+  obtain ⟨d', h, _, hS⟩ := ios_F2_idempotent_partial a0 b sc hw hok
+  exact ⟨d', h, fun sc2 hid => hS sc2 (fun p hp => identityOn_quiet _ _ _ (hid p hp))⟩
+
+/-- The identity script is quiet, and exists only for lists that are equal line by line. -/
+theorem ios_identity_script_quiet (al bl : List ALine) (rs : List Range) (h : identityOn al bl rs = true) :
+    quietLines al bl rs = true ∧
+    al.map (encLine ((al ++ bl).map (·.text)) ((al ++ bl).map (·.nolog))) =
+      bl.map (encLine ((al ++ bl).map (·.text)) ((al ++ bl).map (·.nolog))) :=
+  ⟨identityOn_quiet al bl rs h, identityOn_equal al bl rs h⟩
+
 /-- `ios_no_generated_leftover` (C02: no left-over `-DRC-` object): after the script every generated
 (`-DRC-`) ACL on the device is bound — by a target interface, under the name the run gave to the
 target's ACL, or by an interface the target does not name (whose ACLs are never touched). -/
@@ -690,6 +714,12 @@ open W in
 example : quietLines (tgtN.lines "e0_in") (tgtN.lines "e0_in") [⟨0,3,0,3⟩] = true ∧
     incrOK (tgtN.lines "e0_in") (tgtN.lines "e0_in") [⟨0,3,0,3⟩] = true := by decide
 
+open W in
+example : ((exec (ofConfig devM) (engine devM tgtM scM).script).map fun d =>
+    (cmpPairs (alignVRFs (reconf devM (devM.routes ++ tgtM.routes) d) tgtM {}).2 tgtM).all fun p =>
+      identityOn ((reconf devM (devM.routes ++ tgtM.routes) d).lines p.1) (tgtM.lines p.2) (lookupD scM2.acl p)) = some true ∧
+    noSupprRun (engine devM tgtM scM) = true := by decide
+
 /-! ### Resume: witnesses -/
 
 /-! Witnesses: the composed example above, cut inside the ACL sub-mode of the second ACL (8 lines) and
@@ -757,7 +787,7 @@ def obligations : List Lean.Name := [
   ``ios_bindings_converge, ``ios_routes_converge,
   ``ios_routes_untouched_if_unspecified, ``ios_unmanaged_vrf_untouched, ``alignVRFs_frame,
   ``ios_F2_converges_counterexample, ``ios_unchanged_if_equivalent_counterexample, ``ios_F2_unchanged_only_if_equivalent, ``ios_acl_quiet_only_if_equivalent,
-  ``ios_F2_quiet, ``ios_F2_idempotent_partial, ``ios_no_generated_leftover, ``ios_F2_resume_partial, ``ios_split_script_same,
+  ``ios_F2_quiet, ``ios_F2_idempotent_partial, ``ios_F2_idempotent_exact, ``ios_identity_script_quiet, ``ios_no_generated_leftover, ``ios_F2_resume_partial, ``ios_split_script_same,
   ``ios_wfB_not_prefix_closed, ``ios_route_plan_phases, ``ios_route_commands_are_plan,
   ``ios_routes_covered_every_step, ``ios_routes_uncovered_between_halves, ``ios_plan_all_both_quiet, ``planIOS_empty_blockEquiv,
   ``plan_second_script_counterexample]
